@@ -43,7 +43,7 @@ def address_taken(prog, reach):
 
 
 def run(ctx, rule, entries, *, lossy=False, entry_facts=None, lemmas=None, trusts=None, scope=None, skip=None,
-        unsafe=True, lossy_filter=None, kinds=None, init_class="CONSTINIT", floor_bodies=0, desc=None, invariants=None):
+        unsafe=True, lossy_filter=None, kinds=None, init_class="CONSTINIT", floor_bodies=0, desc=None, invariants=None, assume_filter=None):
     """entries: body paths. entry_facts: path -> {arg: {...}}. lemmas / trusts: (path, site_key or kind-prefix) -> (name, reason).
     scope: predicate(body) -> bool; obligations in bodies outside the scope are listed as notes only.
     Returns list of Outcome."""
@@ -116,6 +116,10 @@ def run(ctx, rule, entries, *, lossy=False, entry_facts=None, lemmas=None, trust
                         ok, cls, why = True, "%s(%s)" % (kind, hit[0]), hit[1]
                         if kind == "TRUST":
                             ctx.trust(hit[0], "%s [%s %s]" % (hit[1], p, sk))
+            if not ok and assume_filter is not None:
+                hit = assume_filter(b, o.ob)
+                if hit:
+                    ok, cls, why = True, "ASSUME(%s)" % hit[0], hit[1]
             ctx.oblig(ok, cls)
             ctx.instance(rule, {"fn": p, "site": o.ob.site, "oblig": sk, "what": o.ob.desc[:80], "discharged": cls or "NO", "why": why[:160]})
             if not ok:
